@@ -25,7 +25,7 @@ from vf.checks.c14 import symbolic_sort
 PID = "C05"
 
 KINDS = ["assign", "loop1", "loop2", "loop3", "loop4", "nop", "yield", "fail"]
-GUARDS = ["T", "c0", "!c0", "c0&c1", "c1&!c0", "c2"]
+GUARDS = ["T", "c0", "!c0", "c0&c1", "c1&!c0", "c2", "!!c0", "!!!c1"]
 
 
 def build_guard(g):
@@ -34,9 +34,12 @@ def build_guard(g):
         return True
 
     def atom(a):
-        neg = a.startswith("!")
+        # any number of leading negations, nested as written: "!!c0" is not (not c0)
+        nneg = len(a) - len(a.lstrip("!"))
         v = Variable("<cond>" + a.lstrip("!"))
-        return LogicalNot(v) if neg else v
+        for _ in range(nneg):
+            v = LogicalNot(v)
+        return v
     parts = [atom(a) for a in g.split("&")]
     return parts[0] if len(parts) == 1 else LogicalAnd(tuple(parts))
 
@@ -408,7 +411,7 @@ def main(tier, seed):
         run.harness_errors.append("self-test failed: %r" % run.selftests)
     run.assumptions = [
         "edges i -> j only for j < i; statement ids are a permutation of s0..s(N-1) (the lowering orders by id: a dependency may sort before or after its dependent)",
-        "guards are flags, negated flags and conjunctions thereof (what the builder produces)",
+        "guards are flags, negated flags (also doubly and triply negated) and conjunctions thereof",
         "flags are not assigned by the phase's own statements (flag assignments are ordinary statements for the lowering)",
         "the tree is compared across storage orders by an independent serialiser (dagrt's own ASTStringifier cannot print an IfThenElse node)",
     ]
